@@ -16,4 +16,35 @@ pub mod lifted {
         unimplemented!("summarised by the symbolic executor")
     }
     include!(concat!(env!("VERIF_GEN_DIR"), "/outquery_accept_reply.rs"));
+    // C07: the adaptive retransmission timeout stays inside its documented bounds (statements of send_udp, lifted)
+    include!(concat!(env!("VERIF_GEN_DIR"), "/outquery_adapt_timeout.rs"));
+    pub fn verif_timeout_bounds() -> (Duration, Duration) {
+        (MIN_DNS_TIMEOUT, MAX_DNS_TIMEOUT)
+    }
+}
+
+#[cfg(kani)]
+mod k {
+    use super::super::*;
+    use super::lifted::*;
+
+    /// VERIF: {"p":"C07","tier":"quick","fns":["dns::outquery::OutQuery::send_udp (timeout adaptation statements lifted from source)"],"bounds":"current and initial timeout anywhere within [MIN_DNS_TIMEOUT, MAX_DNS_TIMEOUT] (ms granularity), elapsed time 0..=86400 s at ms granularity, 0..=8 attempts","oracle":"after the update the global retransmission timeout is still within [MIN_DNS_TIMEOUT, MAX_DNS_TIMEOUT] and nothing panicked: one inductive step, so the first retry delay is bounded for every history of queries","stubs":["statements lifted verbatim from send_udp; the RwLock write guard is a plain &mut Duration"],"covers":2,"unwind":4}
+    #[kani::proof]
+    #[kani::unwind(4)]
+    fn c07_retransmission_timeout_stays_bounded() {
+        let (mn, mx) = verif_timeout_bounds();
+        let cur_ms: u64 = kani::any();
+        let ini_ms: u64 = kani::any();
+        let dur_ms: u64 = kani::any();
+        let n: usize = kani::any();
+        kani::assume(cur_ms >= mn.as_millis() as u64 && cur_ms <= mx.as_millis() as u64);
+        kani::assume(ini_ms >= mn.as_millis() as u64 && ini_ms <= mx.as_millis() as u64);
+        kani::assume(dur_ms <= 86_400_000);
+        kani::assume(n <= 8);
+        let mut cell = Duration::from_millis(cur_ms);
+        lifted_outquery_adapt_timeout(n, Duration::from_millis(dur_ms), Duration::from_millis(ini_ms), &mut cell);
+        kani::cover!(n > 1 && dur_ms < ini_ms && cell != Duration::from_millis(cur_ms), "lowered after a fast reply");
+        kani::cover!(n > 1 && dur_ms >= ini_ms && cell > Duration::from_millis(cur_ms), "raised after a slow reply");
+        assert!(cell >= mn && cell <= mx, "retransmission timeout within its documented bounds after the update");
+    }
 }
